@@ -13,7 +13,9 @@ import (
 
 	"github.com/cenkalti/backoff/v4"
 	"github.com/gebn/bmc"
+	"github.com/gebn/bmc/pkg/dcmi"
 	"github.com/gebn/bmc/pkg/ipmi"
+	"github.com/google/gopacket"
 )
 
 type c13P struct {
@@ -31,7 +33,7 @@ type c13L struct {
 }
 
 func init() {
-	steps := []string{"sessionless", "discovery", "open", "rakp1", "rakp3", "insession", "close", "sdr-info", "sdr-reserve", "sdr-get1", "sdr-get2", "sdr-get3", "sdr-get4", "sdr-final", "wrongpw", "close2", "after-expired", "suites-idx1", "suites-idx2"}
+	steps := []string{"sessionless", "discovery", "open", "rakp1", "rakp3", "insession", "close", "sdr-info", "sdr-reserve", "sdr-get1", "sdr-get2", "sdr-get3", "sdr-get4", "sdr-final", "wrongpw", "close2", "after-expired", "suites-idx1", "suites-idx2", "sensor-read", "dcmi-enum"}
 	faults := []string{"blackhole", "late", "garbage", "tempcode", "trunc", "ffrun", "drop-once", "repo-modified", "runts", "close-inflight"}
 	register(&Check{
 		ID:      "C13",
@@ -63,6 +65,14 @@ func init() {
 				for _, f := range []string{"lost", "garbage", "busy", "expired", "ffrun"} {
 					cs = append(cs, ev.MkCase("mem", c13L{Step: st, Fault: f, Seed: seed}))
 				}
+			}
+			// steps that carry their own fault: the BMC's port is gone (ICMP errors instead of silence), the
+			// repository holds a Full Sensor Record longer than the library reads (the walk can never complete)
+			for _, st := range []string{"dead-port-sessionless", "dead-port-open", "sdr-oversize"} {
+				for _, rt := range ratios {
+					cs = append(cs, ev.MkCase("udp", c13P{Step: st, Fault: "own", Timeout: rt[0], Deadline: rt[1], Seed: seed}))
+				}
+				cs = append(cs, ev.MkCase("udp", c13P{Step: st, Fault: "own", Timeout: 2000, Deadline: -50, Seed: seed}))
 			}
 			if tier == "thorough" {
 				for k := 1; k <= 4; k++ {
@@ -156,6 +166,14 @@ func c13Match(step string, b *refbmc.BMC, getCount *int) bool {
 		return e.Kind == "session-ipmi" && e.NetFn == 6 && e.Cmd == 0x01
 	case "close", "close2":
 		return e.Kind == "session-ipmi" && e.Cmd == 0x3c
+	case "sensor-read":
+		return e.Kind == "session-ipmi" && e.NetFn == 0x04 && e.Cmd == 0x2d
+	case "dcmi-enum":
+		// the enumeration is under way: the fault starts with its third request
+		if e.Kind == "session-ipmi" && e.NetFn == 0x2c && e.Cmd == 0x07 {
+			*getCount++
+			return *getCount >= 3
+		}
 	case "sdr-info":
 		return e.Kind == "session-ipmi" && e.NetFn == 0x0a && e.Cmd == 0x20
 	case "sdr-reserve":
@@ -185,7 +203,8 @@ func c13UDP(run *ev.Run, p c13P, cs ev.Case) (string, func()) {
 	if p.Step == "suites-idx1" || p.Step == "suites-idx2" {
 		cssrv.Data = c13AlignedSuites()
 	}
-	b.Handler = refbmc.Chain(repo.Handle, cssrv.Handle, refbmc.Fixed(6, 0x37, 0, rbytes(r, 16)),
+	sensorRec, sensorDev, dcmiDev := c13Devices(r)
+	b.Handler = refbmc.Chain(repo.Handle, cssrv.Handle, sensorDev.Handle, dcmiDev.Handle, refbmc.Fixed(6, 0x37, 0, rbytes(r, 16)),
 		refbmc.Fixed(6, 0x01, 0, []byte{0x20, 0x81, 0x03, 0x15, 0x02, 0xbf, 0x57, 0x01, 0x00, 0x34, 0x12}), refbmc.Fixed(6, 0x3c, 0, nil))
 	srv, err := udpbmc.Listen(b)
 	if err != nil {
@@ -193,11 +212,27 @@ func c13UDP(run *ev.Run, p c13P, cs ev.Case) (string, func()) {
 	}
 	defer srv.Close()
 	timeout := time.Duration(p.Timeout) * time.Millisecond
-	st, err := bmc.DialV2(srv.Addr(), bmc.WithTimeout(timeout))
+	var st *bmc.V2SessionlessTransport
+	if (p.Seed+int64(len(p.Step)+len(p.Fault)))%2 == 0 {
+		// the per-request timeout is configured after dialling
+		if st, err = bmc.DialV2(srv.Addr()); err == nil {
+			st.SetTimeout(timeout)
+		}
+	} else {
+		st, err = bmc.DialV2(srv.Addr(), bmc.WithTimeout(timeout))
+	}
 	if err != nil {
 		return "inconclusive", nil
 	}
 	defer st.Close()
+	if p.Step == "sdr-oversize" {
+		// the second record announces 65..255 bytes: more than the library is prepared to read
+		f1, _, _ := genFSR(r, 3, 5)
+		big := append(rbytes(r, 43), 0xc0)
+		big = append(big, rbytes(r, 22+r.Intn(190))...)
+		big[42] = 0xc0
+		repo.ModifyLocked([]refbmc.SDRRecord{{ID: 1, Type: 1, Body: f1}, {ID: 2, Type: 1, Body: big}, {ID: 3, Type: 1, Body: f1}}, false, true)
+	}
 	faultOn := false
 	getCount := 0
 	validSent := 0
@@ -291,7 +326,7 @@ func c13UDP(run *ev.Run, p c13P, cs ev.Case) (string, func()) {
 		opts.Password = append(append([]byte(nil), opts.Password...), 0x78)
 	}
 	var sess *bmc.V2Session
-	needSession := p.Step == "insession" || p.Step == "close" || p.Step == "close2" || len(p.Step) > 4 && p.Step[:4] == "sdr-"
+	needSession := p.Step == "sdr-oversize" || p.Step == "insession" || p.Step == "close" || p.Step == "close2" || p.Step == "sensor-read" || p.Step == "dcmi-enum" || len(p.Step) > 4 && p.Step[:4] == "sdr-"
 	if needSession {
 		sctx, scancel := context.WithTimeout(context.Background(), 15*time.Second)
 		sess, err = st.NewV2Session(sctx, opts)
@@ -314,6 +349,13 @@ func c13UDP(run *ev.Run, p c13P, cs ev.Case) (string, func()) {
 		safe(func() { sess.Close(c0) })
 		cancel0()
 	}
+	if p.Step == "dead-port-sessionless" || p.Step == "dead-port-open" {
+		srv.Close() // from here on the kernel answers the console's datagrams with ICMP port unreachable
+		faultOn = true
+	}
+	if p.Step == "sdr-oversize" {
+		faultOn = true
+	}
 	deadline := time.Now().Add(time.Duration(p.Deadline) * time.Millisecond)
 	ctx, cancel := context.WithDeadline(context.Background(), deadline)
 	defer cancel()
@@ -335,9 +377,9 @@ func c13UDP(run *ev.Run, p c13P, cs ev.Case) (string, func()) {
 		defer close(done)
 		pv, stk = safe(func() {
 			switch p.Step {
-			case "sessionless", "after-expired":
+			case "sessionless", "after-expired", "dead-port-sessionless":
 				_, callErr = st.GetSystemGUID(ctx)
-			case "discovery", "open", "rakp1", "rakp3", "wrongpw":
+			case "discovery", "open", "rakp1", "rakp3", "wrongpw", "dead-port-open":
 				_, callErr = st.NewV2Session(ctx, opts)
 			case "suites-idx1", "suites-idx2":
 				_, callErr = bmc.RetrieveSupportedCipherSuites(ctx, st)
@@ -345,6 +387,13 @@ func c13UDP(run *ev.Run, p c13P, cs ev.Case) (string, func()) {
 				_, callErr = sess.GetDeviceID(ctx)
 			case "close", "close2":
 				callErr = sess.Close(ctx)
+			case "sensor-read":
+				var rd bmc.SensorReader
+				if rd, callErr = bmc.NewSensorReader(sensorRec); callErr == nil {
+					_, callErr = rd.Read(ctx, sess)
+				}
+			case "dcmi-enum":
+				_, callErr = dcmi.GetSensorInfo(ctx, sess)
 			default:
 				var m bmc.SDRRepository
 				m, callErr = bmc.RetrieveSDRRepository(ctx, sess)
@@ -420,7 +469,8 @@ func c13Mem(run *ev.Run, l c13L, cs ev.Case) {
 	b := refbmc.New(cfg)
 	repo := c13Repo(r)
 	cssrv := &refbmc.CipherSuiteServer{Channel: 1, Data: refbmc.EncodeSuiteRecords([]refbmc.SuiteRecord{{ID: 3, Auth: 1, Integs: []byte{1}, Confs: []byte{1}}})}
-	b.Handler = refbmc.Chain(repo.Handle, cssrv.Handle, refbmc.Fixed(6, 0x37, 0, rbytes(r, 16)),
+	sensorRec, sensorDev, dcmiDev := c13Devices(r)
+	b.Handler = refbmc.Chain(repo.Handle, cssrv.Handle, sensorDev.Handle, dcmiDev.Handle, refbmc.Fixed(6, 0x37, 0, rbytes(r, 16)),
 		refbmc.Fixed(6, 0x01, 0, []byte{0x20, 0x81, 0x03, 0x15, 0x02, 0xbf, 0x57, 0x01, 0x00, 0x34, 0x12}), refbmc.Fixed(6, 0x3c, 0, nil))
 	faultOn := false
 	getCount := 0
@@ -460,6 +510,11 @@ func c13Mem(run *ev.Run, l c13L, cs ev.Case) {
 	t.Mode = memtr.Window
 	timeout := 700 * time.Millisecond
 	st := bmc.VerifNewV2SessionlessTransport(t, timeout, &backoff.ZeroBackOff{})
+	if (l.Seed+int64(len(l.Step)+len(l.Fault)))%2 == 0 {
+		// a connection made with another per-request timeout and reconfigured before use
+		st = bmc.VerifNewV2SessionlessTransport(t, 9*time.Second, &backoff.ZeroBackOff{})
+		st.SetTimeout(timeout)
+	}
 	opts := &bmc.V2SessionOpts{SessionOpts: bmc.SessionOpts{Username: cfg.Username, Password: cfg.Password, MaxPrivilegeLevel: ipmi.PrivilegeLevelAdministrator}, CipherSuites: []ipmi.CipherSuite{ipmi.CipherSuite3}}
 	if l.Step == "discovery" {
 		opts.CipherSuites = nil
@@ -474,7 +529,7 @@ func c13Mem(run *ev.Run, l c13L, cs ev.Case) {
 	}
 	var sess *bmc.V2Session
 	var err error
-	needSession := l.Step == "insession" || l.Step == "close" || l.Step == "close2" || len(l.Step) > 4 && l.Step[:4] == "sdr-"
+	needSession := l.Step == "insession" || l.Step == "close" || l.Step == "close2" || l.Step == "sensor-read" || l.Step == "dcmi-enum" || len(l.Step) > 4 && l.Step[:4] == "sdr-"
 	if needSession {
 		sctx, scancel := context.WithTimeout(context.Background(), 15*time.Second)
 		sess, err = st.NewV2Session(sctx, opts)
@@ -506,6 +561,13 @@ func c13Mem(run *ev.Run, l c13L, cs ev.Case) {
 			_, callErr = sess.GetDeviceID(ctx)
 		case "close", "close2":
 			callErr = sess.Close(ctx)
+		case "sensor-read":
+			var rd bmc.SensorReader
+			if rd, callErr = bmc.NewSensorReader(sensorRec); callErr == nil {
+				_, callErr = rd.Read(ctx, sess)
+			}
+		case "dcmi-enum":
+			_, callErr = dcmi.GetSensorInfo(ctx, sess)
 		default:
 			_, callErr = bmc.RetrieveSDRRepository(ctx, sess)
 		}
@@ -560,6 +622,22 @@ func c13Mem(run *ev.Run, l c13L, cs ev.Case) {
 			return
 		}
 	}
+}
+
+// c13Devices: a linear sensor (record, device answering its number) and a DCMI sensor-info pager whose
+// enumeration takes several requests per entity.
+func c13Devices(r *rand.Rand) (*ipmi.FullSensorRecord, *refbmc.SensorDevice, *refbmc.DCMISensorInfo) {
+	body, _, _ := genFSR(r, 3, 6)
+	body[18], body[15] = 0, body[15]&0x3f|0x80 // linear, two's complement
+	rec := &ipmi.FullSensorRecord{}
+	if err := rec.DecodeFromBytes(body, gopacket.NilDecodeFeedback); err != nil {
+		panic("c13: generated record does not decode: " + err.Error())
+	}
+	sd := &refbmc.SensorDevice{}
+	sd.Set(body[1]&3, body[2], []byte{0x55, 0x40, 0})
+	dc := &refbmc.DCMISensorInfo{PageSize: 2, IDs: map[[2]byte][]uint16{{1, 0x37}: {1, 2, 3, 4, 5}, {1, 0x03}: {9, 8, 7}, {1, 0x07}: {0x20},
+		{1, 0x40}: {1, 2, 3, 4, 5}, {1, 0x41}: {9, 8, 7}, {1, 0x42}: {0x20}}}
+	return rec, sd, dc
 }
 
 // c13AlignedSuites is an advertisement of 16+16+13 bytes whose first and second 16-byte chunks
